@@ -47,12 +47,17 @@ class Trace:
                 return r
             w.__name__ = name
             return w
+        # evidence only: another tree's api module may import or dispatch differently - what is absent is not traced
         for name in ('vincinv', 'vincdir', 'hp2dec', 'dec2hp'):
-            fn = getattr(app_mod, name)
+            fn = getattr(app_mod, name, None)
+            if not callable(fn):
+                continue
             self.saved[name] = fn
             setattr(app_mod, name, wrap(name, fn))
         for dname in ('angle_type_to_dd', 'dd_to_angle_type'):
-            d = getattr(app_mod, dname)
+            d = getattr(app_mod, dname, None)
+            if not isinstance(d, dict):
+                continue
             for k, v in list(d.items()):
                 for name, fn in self.saved.items():
                     if v is fn:
